@@ -20,6 +20,9 @@ VARIABLES tree,     \* the tree (layer I)
           hist      \* operations so far (hidden from the state space by VIEW)
 vars == <<tree, live, ic, nops, ret, hist>>
 View == <<tree, live, ic, nops>>
+\* finer view for small pools: one history per (state, sequence of operation KINDS), so that the same abstract state is
+\* also reached through retain where another history reaches it through remove (hidden implementation state may differ)
+ViewKinds == <<tree, live, ic, nops, [i \in 1..Len(hist) |-> hist[i].op]>>
 
 Init == /\ tree = EmptyItem /\ live = {} /\ ic \in IgnoreCase /\ nops = 0 /\ ret = <<>> /\ hist = <<>>
 
